@@ -99,6 +99,7 @@ func loadRepo(dir string, overlay map[string][]byte) (*Ctx, error) {
 	dualSwapMemo = map[string][3]int{}
 	embeddedMemo = map[string]bool{}
 	stateEnumMemo = map[*ssa.Function]*stateEnum{}
+	thinGetterMemo = map[*ssa.Function]int{}
 	permMemo = map[*ssa.Function][]string{}
 	acquiredMemo = map[*ssa.Function]lockset{}
 	// Enumerate functions: package members, methods of every named type (AllFunctions misses methods of
@@ -168,6 +169,7 @@ func loadRepo(dir string, overlay map[string][]byte) (*Ctx, error) {
 	dualSwapMemo = map[string][3]int{}
 	embeddedMemo = map[string]bool{}
 	stateEnumMemo = map[*ssa.Function]*stateEnum{}
+	thinGetterMemo = map[*ssa.Function]int{}
 	permMemo = map[*ssa.Function][]string{}
 	acquiredMemo = map[*ssa.Function]lockset{}
 	return c, nil
